@@ -123,9 +123,59 @@ static int peer_read_line (char *buf, size_t cap)
   return (int) n;
 }
 
+/* ---- nested calls: a call made, and waited for, from INSIDE a callback that dbus_connection_dispatch() is running ----
+ * NEST <where> <mode> arms it once: where = n (the next pending-call notify function), f (the filter, on the next
+ * signal), h (the next object-path handler); mode = b (dbus_connection_send_with_reply_and_block) or p (send_with_reply +
+ * dbus_pending_call_block + steal_reply).  The peer's reply is written to the socket before the wait starts (the serial is
+ * fixed with hook H4), so the reply is there to be found (the explorer may have queued other messages ahead of it).  Logged as
+ * "N<where><mode>:<type>:<reply_serial>:<error name>:<serial of the nested call>;". */
+static int nest_where, nest_mode; static dbus_uint32_t nest_serial = 0x5000;
+static void nest_write_reply (dbus_uint32_t rs)
+{
+  unsigned char m[160]; size_t n; static dbus_uint32_t myserial = 9000;
+  memset (m, 0, sizeof m);
+  m[0] = 'l'; m[1] = 2; m[2] = 1; m[3] = 1;
+  { dbus_uint32_t s2 = ++myserial; memcpy (m + 8, &s2, 4); }
+  n = 16;
+  m[n++] = 5; m[n++] = 1; m[n++] = 'u'; m[n++] = 0; memcpy (m + n, &rs, 4); n += 4;
+  { dbus_uint32_t fl = (dbus_uint32_t) (n - 16); memcpy (m + 12, &fl, 4); }
+  while (n % 8) m[n++] = 0;
+  if (send (peer, m, n, MSG_NOSIGNAL) < 0) {}
+}
+
+static void nested_call (DBusConnection *c, int where)
+{
+  DBusMessage *m, *r = NULL; DBusError err; dbus_uint32_t ser = ++nest_serial; int mode = nest_mode;
+  nest_where = 0;                                   /* one shot */
+  _dbus_verif_connection_set_next_serial (c, ser);
+  m = dbus_message_new_method_call ("peer.name", "/x", "x.y", "Nested");
+  if (!m) _exit (3);
+  nest_write_reply (ser);
+  dbus_error_init (&err);
+  if (mode == 'b')
+    r = dbus_connection_send_with_reply_and_block (c, m, 2000, &err);
+  else
+    {
+      DBusPendingCall *p = NULL;
+      if (dbus_connection_send_with_reply (c, m, &p, 2000) && p)
+        {
+          dbus_pending_call_block (p);
+          r = dbus_pending_call_steal_reply (p);
+          dbus_pending_call_unref (p);
+          if (r && dbus_set_error_from_message (&err, r)) { dbus_message_unref (r); r = NULL; }
+        }
+    }
+  ob_printf (&logb, "N%c%c:%d:%u:%s:%u;", where, mode, r ? dbus_message_get_type (r) : 0, r ? dbus_message_get_reply_serial (r) : 0,
+             dbus_error_is_set (&err) ? err.name : "-", ser);
+  if (r) dbus_message_unref (r);
+  dbus_error_free (&err);
+  dbus_message_unref (m);
+}
+
 static DBusHandlerResult filter_fn (DBusConnection *c, DBusMessage *m, void *data)
 {
-  (void) c; (void) data;
+  (void) data;
+  if (nest_where == 'f' && dbus_message_get_type (m) == DBUS_MESSAGE_TYPE_SIGNAL && !dbus_message_has_member (m, "Ahead")) nested_call (c, 'f');
   ob_printf (&logb, "f:%d:%s:%u;", dbus_message_get_type (m),
              dbus_message_get_member (m) ? dbus_message_get_member (m) : (dbus_message_get_error_name (m) ? dbus_message_get_error_name (m) : "-"),
              dbus_message_get_reply_serial (m));
@@ -177,8 +227,9 @@ static void unreg_fn (DBusConnection *c, void *data)
 }
 static DBusHandlerResult msg_fn (DBusConnection *c, DBusMessage *m, void *data)
 {
-  Reg *r = data; (void) c;
+  Reg *r = data;
   ob_printf (&logb, "h:%s:%s:%s;", r->path, r->fallback ? "fb" : "ex", dbus_message_get_path (m));
+  if (nest_where == 'h') nested_call (c, 'h');
   return r->handles ? DBUS_HANDLER_RESULT_HANDLED : DBUS_HANDLER_RESULT_NOT_YET_HANDLED;
 }
 static const DBusObjectPathVTable vtable = { unreg_fn, msg_fn, NULL, NULL, NULL, NULL };
@@ -214,6 +265,7 @@ static void notify_fn (DBusPendingCall *p, void *data)
   int i = (int) (intptr_t) data; (void) p;
   pcs[i].notified++;
   ob_printf (&logb, "n:%d;", i);
+  if (nest_where == 'n' && conn) nested_call (conn, 'n');
 }
 
 static void describe_reply (int i)
@@ -333,6 +385,7 @@ int main (int argc, char **argv)
       else if (!strcmp (a[0], "SEED")) { _dbus_verif_connection_set_next_serial (conn, (dbus_uint32_t) strtoul (n > 1 ? a[1] : "1", NULL, 10)); ob_puts (&out, "OK"); }
       else if (!strcmp (a[0], "SENDSIG"))
         { DBusMessage *m = dbus_message_new_signal ("/s", "s.i", "S"); dbus_uint32_t ser = 0; dbus_connection_send (conn, m, &ser); dbus_message_unref (m); pump (); ob_printf (&out, "serial=%u ", ser); finish ("OK"); }
+      else if (!strcmp (a[0], "NEST")) { nest_where = n > 1 ? a[1][0] : 0; nest_mode = n > 2 ? a[2][0] : 'b'; ob_puts (&out, "OK"); }
       else if (!strcmp (a[0], "STATE")) finish ("OK");
       else if (!strcmp (a[0], "QUIT")) { ob_puts (&out, "BYE"); reply (&out); break; }
       else ob_puts (&out, "ERR unknown-command");
